@@ -462,6 +462,26 @@ def _run(ctx, rng, big, events):
         ctx.ev()
         if rb['needed_registered'] or rb['needed_subscribed']:
             ctx.violation('rebuild-finds-repairs', dict(where, report=rb))
+        if rb['did_not_register'] != len(utils) or rb['did_not_subscribe'] != len(utils):
+            # (every listed utility is looked at, once for its registration and once for its subscription)
+            ctx.violation('rebuild-report-does-not-cover-the-listing', dict(where, report=rb, listed=len(utils)))
+        if utils and rng.random() < 0.05:
+            # the check itself is checked: the underlying registry is damaged behind the object's back (one utility's
+            # registration or subscription removed there); the report must say so, and with rebuild=True repair it
+            (p_, n_), (c_, _i) = rng.choice(sorted(utils.items(), key=lambda kv: (kv[0][0].__name__, kv[0][1])))
+            what = rng.choice(['registration', 'subscription'])
+            if what == 'registration':
+                comps.utilities.unregister((), p_, n_)
+                want = ('needed_registered', 1)
+            else:
+                comps.utilities.unsubscribe((), p_, c_)
+                want = ('needed_subscribed', 1)     # (subscribed once per provided interface, whatever the number of names)
+            rb2 = comps.rebuildUtilityRegistryFromLocalCache(rebuild=True)
+            rb3 = comps.rebuildUtilityRegistryFromLocalCache()
+            ctx.ev(2)
+            ctx.count('damaged_utility_registries_reported_and_repaired[%s]' % what)
+            if rb2[want[0]] != want[1] or rb3['needed_registered'] or rb3['needed_subscribed']:
+                ctx.violation('rebuild-does-not-report-or-repair-damage', dict(where, damaged=what, first_report=rb2, after_repair=rb3, expected=want))
         # ---- queries vs fresh registries populated with exactly the ledger --------
         fub, fab = AdapterRegistry(), AdapterRegistry()
         seenb = []
